@@ -36,8 +36,10 @@ Definition two32 : Z := 4294967296.
 Definition i64 (u : Z) : Z := if two63 <=? u then u - two64z else u.
 Definition i32 (u : Z) : Z := if two31 <=? u then u - two32 else u.
 
+(* len is clamped to the list length first: a hostile length field must not become a huge unary nat *)
 Definition sub (b : bytes) (pos len : Z) : bytes :=
-  if (pos <? 0) || (len <? 0) then [] else firstn (Z.to_nat len) (skipn (Z.to_nat pos) b).
+  if (pos <? 0) || (len <? 0) then []
+  else firstn (Z.to_nat (Z.min len (zlen b))) (skipn (Z.to_nat (Z.min pos (zlen b))) b).
 
 (* ---------- records *)
 
